@@ -104,7 +104,7 @@ func c10Scenarios(tier string) []e1lib.Scenario {
 	if tier == "thorough" {
 		db = 3
 	}
-	for _, par := range []int{5, 9, 17, 33, 65} {
+	for _, par := range []int{4, 5, 6, 9, 10, 12, 17, 33, 65} {
 		for _, in := range [][]int{{}, {2, 3}, {1, 2, 3, 1, 2, 3, 1}} {
 			for _, mo := range []string{"sum", "product"} {
 				for ici, ic := range []int{0, len(in)} {
@@ -134,6 +134,6 @@ func c10Scenarios(tier string) []e1lib.Scenario {
 
 func propC10() drv.Property {
 	return table("C10",
-		"one case = fork.Fold x worker count 1..3 (4 in thorough, inputs up to length 3) x every input sequence over a 3-letter alphabet of length <= 3 (4 in thorough), including empty and shorter than the worker count x monoid {sum with injective weights (the sum is the bag of elements, so exactly-once is visible), product, max, min, bitwise and, bitwise or} x input capacity {0, len}; 5, 9, 17, 33 and 65 workers over 0, 2 and 7 elements explored up to 2 (thorough 3) deviations from the default schedule (one less above 9 workers); every interleaving = every distribution of elements over workers and every arrival order of partial results at the collector; the result is deterministic by design, non-trivial = at least two elements, two workers and more than one schedule",
+		"one case = fork.Fold x worker count 1..3 (4 in thorough, inputs up to length 3) x every input sequence over a 3-letter alphabet of length <= 3 (4 in thorough), including empty and shorter than the worker count x monoid {sum with injective weights (the sum is the bag of elements, so exactly-once is visible), product, max, min, bitwise and, bitwise or} x input capacity {0, len}; 4, 5, 6, 9, 10, 12, 17, 33 and 65 workers over 0, 2 and 7 elements explored up to 2 (thorough 3) deviations from the default schedule (one less above 9 workers); every interleaving = every distribution of elements over workers and every arrival order of partial results at the collector; the result is deterministic by design, non-trivial = at least two elements, two workers and more than one schedule",
 		commonAssumptions, c10Scenarios)
 }
